@@ -1369,15 +1369,29 @@ func (w *Worktree) Clean(opts *CleanOptions) error {
 		return err
 	}
 
+	// Without Dir, git clean still removes untracked files inside
+	// directories that hold tracked files; it only refrains from descending
+	// into directories that are untracked as a whole.
+	idx, err := w.r.Storer.Index()
+	if err != nil {
+		return err
+	}
+	trackedDirs := make(map[string]struct{})
+	for _, e := range idx.Entries {
+		for d := path.Dir(e.Name); d != "." && d != "/"; d = path.Dir(d) {
+			trackedDirs[d] = struct{}{}
+		}
+	}
+
 	root := ""
 	files, err := w.filesystem.ReadDir(root)
 	if err != nil {
 		return err
 	}
-	return w.doClean(s, opts, root, files)
+	return w.doClean(s, opts, trackedDirs, root, files)
 }
 
-func (w *Worktree) doClean(status Status, opts *CleanOptions, dir string, files []fs.DirEntry) error {
+func (w *Worktree) doClean(status Status, opts *CleanOptions, trackedDirs map[string]struct{}, dir string, files []fs.DirEntry) error {
 	for _, fi := range files {
 		if fi.Name() == GitDirName {
 			continue
@@ -1386,7 +1400,7 @@ func (w *Worktree) doClean(status Status, opts *CleanOptions, dir string, files 
 		// relative path under the root
 		path := filepath.Join(dir, fi.Name())
 		if fi.IsDir() {
-			if !opts.Dir {
+			if _, tracked := trackedDirs[filepath.ToSlash(path)]; !opts.Dir && !tracked {
 				continue
 			}
 
@@ -1394,7 +1408,7 @@ func (w *Worktree) doClean(status Status, opts *CleanOptions, dir string, files 
 			if err != nil {
 				return err
 			}
-			err = w.doClean(status, opts, path, subfiles)
+			err = w.doClean(status, opts, trackedDirs, path, subfiles)
 			if err != nil {
 				return err
 			}
